@@ -60,12 +60,16 @@ void orc_c02_loop_end(LoopRun &lr) {
         for (int e : sd.eligible) {
             if (sd.delivered.count(e) || sd.dead.count(e) || sd.unknown.count(e) || has(sd.overflow, e)) continue;
             Slot &r = W->slots[e];
-            if (r.st != ST_RUNNING || r.last_non_running_gseq >= sd.gseq) continue;   // did not stay RUNNING
+            // RUNNING when the loop run ends. It need not have been RUNNING throughout: a message for a PAUSED module waits in its mailbox
+            // and is handed over after the resume (a stop in between, or a loop end while PAUSED, discards it: 'dead'/'unknown' above);
+            // only a module that left RUNNING after the last poll is in the flush-time grey zone
+            if (r.st != ST_RUNNING) continue;
+            if (r.last_non_running_gseq >= sd.gseq && r.last_non_running_gseq >= W->last_real_poll_gseq) continue;
             if (r.batch_size || r.batch_timeout) continue;                             // being batched
             if (r.ctx_gen != W->ctx_registrations) continue;
             char sig[96];
             snprintf(sig, sizeof sig, "C02:not-delivered-by-loop-end:%s%s", kind_name(sd.kind), lr.quit_requested ? ":quit" : "");
-            VIOL("C02", sig, "%s #%ld (sent at event %lu while the recipient slot %d was RUNNING, which it stayed) had not been delivered when the loop run %lu ended (rc=%d)",
+            VIOL("C02", sig, "%s #%ld (sent at event %lu to recipient slot %d, RUNNING or PAUSED then, never stopped since and RUNNING now) had not been delivered when the loop run %lu ended (rc=%d)",
                  kind_name(sd.kind), sd.id, (unsigned long)sd.gseq, e, (unsigned long)lr.id, lr.rc);
         }
     }
